@@ -531,9 +531,16 @@ def run_splinecv(tape, stats):
         cand = [d for d in pool if d not in dampings]
         dampings.append(tape.pick(cand, f"damping{i}"))
     mode = tape.weighted([("delayed", 4), ("client", 3), ("serial", 1)], "mode")
-    sample = {"op": "SplineCV.fit", "data": ds.desc, "dampings": dampings, "cv": cvspec, "scoring": scoring, "mode": mode}
+    # the (deprecated) second grid dimension: candidates are the product mindists x dampings, in that order
+    mindists = None
+    if tape.coin(0.3, "use_mindists"):
+        mindists = [tape.pick([0.0, 5.0], "mindist0"), tape.pick([20.0, 60.0], "mindist1")]
+        if tape.draw(2, "mindist.order"):
+            mindists.reverse()
+    grid = [(m, d) for m in (mindists or [None]) for d in dampings]
+    sample = {"op": "SplineCV.fit", "data": ds.desc, "mindists": mindists, "dampings": dampings, "cv": cvspec, "scoring": scoring, "mode": mode}
     stats["sample"] = sample
-    per = [model_cross_val(ds, ["spline", d], cvspec, scoring) for d in dampings]
+    per = [model_cross_val(ds, ["spline", d, m], cvspec, scoring) for m, d in grid]
     if any(isinstance(p, Exception) for p in per):
         raise HarnessError(f"model raised for a plain damped spline: {per}")
     want_means = [float(np.mean(p)) for p in per]
@@ -544,14 +551,15 @@ def run_splinecv(tape, stats):
     ex = SimExecutor(tape, cfg)
     stats["ex"] = ex
     key = None
+    mkw = {"mindists": tuple(mindists)} if mindists else {}
     try:
         if mode == "serial":
-            scv = vd.SplineCV(dampings=tuple(dampings), cv=build_cv(cvspec), scoring=build_scoring(scoring))
+            scv = vd.SplineCV(dampings=tuple(dampings), cv=build_cv(cvspec), scoring=build_scoring(scoring), **mkw)
             call_verde(lambda: scv.fit(*args), True, "serial SplineCV.fit")
             got_means = scv.scores_
         elif mode == "delayed":
             scv = vd.SplineCV(
-                dampings=tuple(dampings), cv=build_cv(cvspec), scoring=build_scoring(scoring), delayed=True
+                dampings=tuple(dampings), cv=build_cv(cvspec), scoring=build_scoring(scoring), delayed=True, **mkw
             )
 
             def go():
@@ -564,7 +572,7 @@ def run_splinecv(tape, stats):
         else:
             client = SimClient(ex)
             scv = vd.SplineCV(
-                dampings=tuple(dampings), cv=build_cv(cvspec), scoring=build_scoring(scoring), client=client
+                dampings=tuple(dampings), cv=build_cv(cvspec), scoring=build_scoring(scoring), client=client, **mkw
             )
 
             def go():
@@ -579,27 +587,27 @@ def run_splinecv(tape, stats):
         ex.sched.shutdown()
     got_means = [float(g) for g in np.ravel(np.asarray(got_means, dtype=float))]
     if len(got_means) != len(want_means):
-        raise Violation("score-count", f"SplineCV({mode}).scores_ has {len(got_means)} entries for {len(dampings)} candidates")
+        raise Violation("score-count", f"SplineCV({mode}).scores_ has {len(got_means)} entries for {len(grid)} candidates")
     for i, (g, w) in enumerate(zip(got_means, want_means)):
         if not close(g, w):
             raise Violation(
                 "splinecv-mean-score",
-                f"SplineCV({mode}, scoring={scoring}) candidate damping={dampings[i]}: scores_ {g!r} vs model mean {w!r}",
+                f"SplineCV({mode}, scoring={scoring}) candidate (mindist, damping)={grid[i]}: scores_ {g!r} vs model mean {w!r}",
                 key,
             )
     order = sorted(want_means, reverse=True)
     tie = len(order) > 1 and abs(order[0] - order[1]) <= 1e-7 * max(1.0, abs(order[0]))
-    best = dampings[int(np.argmax(want_means))]
+    best_m, best_d = grid[int(np.argmax(want_means))]
     if not tie:
-        if scv.damping_ != best:
+        if scv.damping_ != best_d or (mindists and scv.mindist_ != best_m):
             raise Violation(
                 "splinecv-selection",
-                f"SplineCV({mode}) selected damping={scv.damping_} but the highest mean score {max(want_means)} belongs to damping={best} (means {want_means})",
+                f"SplineCV({mode}) selected (mindist, damping)=({scv.mindist_}, {scv.damping_}) but the highest mean score {max(want_means)} belongs to {(best_m, best_d)} (grid {grid}, means {want_means})",
                 key,
             )
         stats["probes"]["selection_checked"] = 1
     # predicts exactly like a Spline with the selected parameters fitted to ALL the data
-    ref = vd.Spline(damping=scv.damping_).fit(*args)
+    ref = build_estimator(["spline", scv.damping_, scv.mindist_ if mindists else None]).fit(*args)
     rs = np.random.RandomState(tape.subseed("query"))
     q = (rs.uniform(0, 100, 15), rs.uniform(-60, 40, 15))
     got_p = scv.predict(q)
